@@ -10,7 +10,6 @@ import (
 	"time"
 
 	"github.com/gobwas/ws"
-	"google.golang.org/genproto/googleapis/rpc/code"
 	"google.golang.org/grpc"
 	"google.golang.org/grpc/codes"
 	"google.golang.org/grpc/metadata"
@@ -296,6 +295,35 @@ type twirpError struct {
 	Meta    map[string]string `json:"meta"`
 }
 
+// codeToTwirp maps gRPC codes to the error codes of the twirp spec.
+// https://twitchtv.github.io/twirp/docs/spec_v7.html#error-codes
+var codeToTwirp = [...]string{
+	"ok",                  // 0 (not an error)
+	"canceled",            // 1
+	"unknown",             // 2
+	"invalid_argument",    // 3
+	"deadline_exceeded",   // 4
+	"not_found",           // 5
+	"already_exists",      // 6
+	"permission_denied",   // 7
+	"resource_exhausted",  // 8
+	"failed_precondition", // 9
+	"aborted",             // 10
+	"out_of_range",        // 11
+	"unimplemented",       // 12
+	"internal",            // 13
+	"unavailable",         // 14
+	"dataloss",            // 15
+	"unauthenticated",     // 16
+}
+
+func twirpCode(c codes.Code) string {
+	if int(c) >= len(codeToTwirp) {
+		return "unknown"
+	}
+	return codeToTwirp[c]
+}
+
 func (m *Mux) encError(w http.ResponseWriter, r *http.Request, err error) {
 	s, _ := status.FromError(err)
 	if isTwirp := r.Header.Get("Twirp-Version") != ""; isTwirp {
@@ -304,7 +332,7 @@ func (m *Mux) encError(w http.ResponseWriter, r *http.Request, err error) {
 		w.Header().Set("Content-Type", accept)
 		w.WriteHeader(HTTPStatusCode(s.Code()))
 
-		codeStr := strings.ToLower(code.Code_name[int32(s.Code())])
+		codeStr := twirpCode(s.Code())
 
 		terr := &twirpError{
 			Code:    codeStr,
